@@ -78,6 +78,7 @@ func atoms(small bool) []*Filt {
 		{Tag: FAll},
 		{Tag: FNSName, IDs: []ID2{{1, 1}}},
 		{Tag: FNSName, IDs: []ID2{{2, 0}}},
+		{Tag: FNSName, IDs: []ID2{{0, 0}}}, // an entry with both fields empty
 		{Tag: FLabels, Map: Map{{1, 1}}},
 		{Tag: FLabelSelector, LSel: &LSel{Exprs: []Expr{{Key: 2, Op: 1, Vals: []int{1, 2}}}}},
 	}
@@ -87,6 +88,8 @@ func atoms(small bool) []*Filt {
 	r = append(r,
 		&Filt{Tag: FNSName},
 		&Filt{Tag: FNSName, IDs: []ID2{{0, 2}}},
+		&Filt{Tag: FNSName, IDs: []ID2{{0, 0}, {1, 1}}},
+		&Filt{Tag: FNSName, IDs: []ID2{{3, 3}, {0, 0}}},
 		&Filt{Tag: FNSName, IDs: []ID2{{1, 1}, {2, 0}, {0, 3}, {3, 3}}},
 		&Filt{Tag: FNSName, IDs: []ID2{{2, 0}, {1, 1}, {3, 3}, {0, 3}}},
 		&Filt{Tag: FNSName, IDs: []ID2{{0, 3}, {2, 0}, {1, 1}, {3, 3}}},
@@ -614,6 +617,8 @@ func runC19(c *Ctx) {
 				cand = append(cand, mk(&Obj{Kind: kind, NS: ns, NM: 1 + i, Spec: SWorkload, LSel: ls, Tmpl: tmpl}))
 			}
 		}
+		// a workload that carries no namespace (decoded from a manifest that omits it) owns no namespaced pod
+		cand = append(cand, mk(&Obj{Kind: kind, NS: 0, NM: 9, Spec: SWorkload, LSel: lsels[2], Tmpl: maps[1]}))
 		fams = append(fams, family{fmt.Sprintf("workload-kind-%d", kind), FWorkloadPods, cand})
 	}
 	{
@@ -623,6 +628,10 @@ func runC19(c *Ctx) {
 				cand = append(cand, mk(&Obj{Kind: KService, NS: ns, NM: 1 + i, Spec: SService, Sel: m}))
 			}
 		}
+		cand = append(cand, mk(&Obj{Kind: KService, NS: 0, NM: 9, Spec: SService, Sel: maps[1]}))
+		// headless and ExternalName services select by their selector like any other
+		cand = append(cand, mk(&Obj{Kind: KService, NS: 1, NM: 7, Spec: SService, Sel: maps[2], Scale: 1}))
+		cand = append(cand, mk(&Obj{Kind: KService, NS: 2, NM: 8, Spec: SService, Sel: maps[1], Scale: 2}))
 		fams = append(fams, family{"service", FServicePods, cand})
 	}
 	{
